@@ -130,7 +130,7 @@ CLAIMED["C04"] = dict(
          "equals the input block, or matches the stored hash, or passes the ecc check with the returned parity; a hash-matching block is "
          "never altered in default mode; failed blocks are copied through; outputs are block-wise as stated and have exactly the input "
          "length (decoder only assumed length-preserving); a failed block prevents 'completely repaired' and the run exits non-zero. "
-         "'Within the decoding radius' is judged on real runs by the oracle (re-encoding), the tools' own guard being hash-or-check.",
+         "'Within the decoding radius' is judged on real runs by the oracle (re-encoding), the tools' own guard being hash-or-check. Run level, for ANY bytes as ecc file and any decoder returning messages of the length given (C04_run_blockwise, C04_run_conservative): every file written is the current file of its path with a prefix of its blocks replaced, block by block, by the block itself, a hash-matching value, or a value that passes the ecc check against a complete stored parity; nothing else changes, no length changes. For the real facade a committed decoder result lies within the capacity of the code for ANY third-party decoder (C02_decode_within_radius, the guard repaired in c2e423c).",
     design="§6 C04", technique="Lean 4 proof (invariant of the repair loop for arbitrary decoder) + recorded-call correspondence on real runs",
     note=_ECC_NOTE)
 CLAIMED["C03"] = dict(
